@@ -279,6 +279,8 @@ func checkC04(c *Ctx) {
 	r.Rule("R01.1", "(shared with C01) decodes to what was logged, the level included: every verb emits at the severity it gates on (R01.1/R01.2/R01.5: gate and emission agree)")
 	r.Rule("R11.1", "(shared with C11) a logger put into JSON mode prints JSON: the mode setters' effect tables")
 	r.Rule("R07.3", "(shared with C07) among equal keys the last one given wins: stable sort, consistent comparator")
+	r.Rule("R09.2", "(shared with C09) nothing rendered for one record (keys, numbers, text) is kept in package-level state for another")
+	r.Rule("R02.8", "(shared with C02) hand-written formatters stay inside their scratch tables: fixed-size tables indexed at a computed position have a derivable bound")
 	r.Rule("R19.1", "(shared with C19) the record is the bytes the encoder appended: the write side of the formatting buffer (Write*, Grow, Truncate, Reset, Bytes and their helpers) is isomorphic to bytes.Buffer")
 	r.Rule("R15.3", "(shared with C15) attributes arriving through the log/slog handler keep key and value: each kind arm hands on the key and the value read with the accessor of its own kind, groups nested, LogValuers resolved")
 	r.Rule("R15.4", "(shared with C15) every attribute with its own value: handlers derived for log/slog own a fresh copy of the bound field list (siblings do not overwrite each other's attributes)")
@@ -322,6 +324,10 @@ func checkC04(c *Ctx) {
 		c04Elements(c, p, m, mr)
 		c04BuiltinFirst(c, p, m)
 		c04KeysAsGiven(c, p, m, mr)
+		countersBalanced(c, p, m, "R04.7")
+		dedupeEquality(c, p, m, "R05.9")
+		c09Globals(c, p, m)
+		constBounds(c, p, m)
 		timeTextQuoted(c, p, m, jsonMode, "R04.2")
 		bufferAppendOnly(c, p, m, "R04.10")
 		c11Transitions(c, p, m)
